@@ -11,7 +11,7 @@ LEVEL = "proof"
 PROPS = "Image/Props_C04.v"
 COQ_FILES = ["Lib/SortSearch.v", "Image/PathTree.v", "Image/PathTreeProofs.v", "Image/PathMap.v", "Image/Fill.v", "Image/Overlay.v",
              "Image/ImageCases.v", "Image/ViewEq.v", "Image/Witnesses.v", "Image/FillProofs.v", "Image/FoldProofs.v", "Image/Bounded.v",
-             "Image/BoundedProofs.v", "Image/DomainP.v", "Image/ViewProofs.v", "Image/Props_C04.v"]
+             "Image/BoundedProofs.v", "Image/DomainP.v", "Image/ViewProofs.v", "Image/PruneProofs.v", "Image/Props_C04.v"]
 PT_CORR = "pathtree.Node Insert/Get/GetChildren/Remove/Walk (Go) vs Image.PathTree trie (Coq, vm_compute); oracle: Image.PathMap finite map"
 CORR = ("image.FromV1Image + ChainLayer.FS Stat/Open+Read/ReadDir/fs.WalkDir (Go) vs Image.Fill load/stat/read/readdir/walk_fs "
         "(Coq, vm_compute)")
@@ -21,18 +21,25 @@ META = {
     "technique": "Coq: executable model of pathtree + FromV1Image (fill, inWhiteoutDir, populate, prune) and of the reads; "
                  "independent OCI overlay spec; refinement proof of the path tree to a finite map; refutation witnesses by "
                  "vm_compute; vm_compute correspondence against the real code on generated in-memory images; spec oracle on the domain D",
-    "level_text": "pathtree_refines_map (Insert/Get/GetChildren/Walk/Remove incl. its pruning) is proved for all trees and paths. "
-                  "The property sentence as written is REFUTED on the current code by machine-checked witnesses (opaque whiteouts, "
-                  "delete+re-create in one layer and across layers, absolute names, implicit-parent modes, nested directory vanishing "
-                  "after whiteout, requirer deleting content of earlier views, order-dependent pruning), each replayed on the real code "
-                  "on every run; two further defects (deep whiteout leak, directory replaced by file) were repaired in /repo and their "
-                  "witnesses run first as a regression corpus. The positive statement view_eq_overlay_on_D is stated in full "
-                  "(ViewEq.view_eq_overlay_on_D_statement); PROVED for lookups on the sub-domain Dp (DomainP.v: no links, explicit parent entries; any number of layers and members) in every view before the final pruning and every view but the last after it (view_lookup_newest, spec_lookup_newest, view_eq_overlay_on_Dp_unpruned, view_eq_overlay_on_Dp); also view_eq_overlay_on_D_bounded_partial (every image of two "
-                  "small-scope families, inside Coq) and the structural lemmas view_is_fold_of_fills / fill_never_overwrites / fill_is_per_chain_layer / fill_step_refines_map / "
-                  "in_whiteout_dir_characterised / whiteouts_hidden (all images). On every run the model is compared with the real "
-                  "code on all generated images (all streams, all configs), the OCI spec is evaluated on the real code's own output for "
-                  "every image inside D, and the real pathtree is compared with the trie model and an independent finite-map spec on "
-                  "generated operation sequences.",
+    "level_text": "PROVED (Coq, all sizes): (1) pathtree_refines_map: Insert/Get/GetChildren/Walk/Remove incl. its pruning, all trees and "
+                  "paths. (2) On the domain Dp (DomainP.v: directories, regular files below the size limit and plain whiteouts; relative "
+                  "names in any spelling; per layer distinct paths, explicit parent entries first, nothing below a whiteout target or file "
+                  "of the same layer; no re-creation of a deleted/replaced directory that had older contents; any history), for any number "
+                  "of layers and members: the implementation's lookup equals the OCI overlay's on kind, mode bits, size and introducing "
+                  "layer in every view before the final pruning and in every view but the last after it under any requirer "
+                  "(view_lookup_newest, spec_lookup_newest, view_eq_overlay_on_Dp_unpruned, view_eq_overlay_on_Dp), and in EVERY view "
+                  "with the default requirer when prune_safe_p holds (final_prune_only_whiteouts_on_Dp, view_eq_overlay_on_Dp_all_views). "
+                  "(3) view_eq_overlay_on_D_bounded_partial: lookups and listings for every image of two small-scope families (with "
+                  "links and implicit parents) by vm_compute. (4) structural lemmas for all images (view_is_fold_of_fills, "
+                  "fill_never_overwrites, ...). ORACLE-CHECKED ONLY (not proved): everything in D / D_weak outside Dp and the bounded "
+                  "families (symbolic links, implicit parents), content equality, ReadDir/WalkDir equality, the last view under a path "
+                  "requirer, the squashed unpack. REFUTED on the current code by machine-checked witnesses replayed on every run: "
+                  "opaque whiteouts, delete+re-create in one layer and across layers, absolute names, implicit-parent modes, nested "
+                  "directory vanishing after whiteout, requirer deleting content of earlier views, order-dependent pruning; two defects "
+                  "(deep whiteout leak, directory replaced by file) were repaired in /repo, their witnesses run first as a regression corpus. "
+                  "On every run the model is compared with the real code on all generated images, the spec is evaluated on the real "
+                  "code's own output for every image inside D / D_weak, and the real pathtree is compared with the trie model and an "
+                  "independent finite-map spec on generated operation sequences.",
     "level_note": "Trusted: Coq kernel + vm_compute; the Go harness (tar writing with archive/tar, image assembly with "
                   "go-containerregistry tarball/mutate, error classification by errors.Is); Go map iteration order is modelled by one "
                   "fixed order and an order-sensitivity test (cases that are order sensitive are compared on success/failure only); "
